@@ -14,6 +14,7 @@
                     _build_memread (lookup(mem, addr[0])[n]), memory writes
                     (`if (en[0]) insert(mem, addr[0], data)`), _declare_roms *)
 From PyRTL Require Export Netlist.Syntax.
+From PyRTL Require Export Gen.MemFrag.   (* regenerated from /repo on every run (py/genfrag_C08.py) *)
 
 (* ------------------------------------------------------------------ *)
 (** * The specification: an array of words                              *)
@@ -124,9 +125,19 @@ Fixpoint pyd_set (d : pydict) (k v : Z) : pydict :=
 (* d.get(k, dflt) *)
 Definition pyd_get (dflt : Z) (d : pydict) (k : Z) : Z := assoc_d d k dflt.
 
-(* Simulation._mem_update *)
+(* Simulation._mem_update: `if write_enable: memvalue[memid][write_addr] = write_val`;
+   the condition is the translated source text (Gen/MemFrag.v mem_update_cond) *)
 Definition sim_mem_update (d : pydict) (w : wport) : pydict :=
-  if enabled w then pyd_set d (w_addr w) (w_data w) else d.
+  if mem_update_cond (w_en w) then pyd_set d (w_addr w) (w_data w) else d.
+
+(* the operands each layer takes from the '@' net's args (translated positions) *)
+Definition build_args (w : wport) : list Z :=
+  map (fun i => if Nat.eqb i build_addr_arg then w_addr w
+                else if Nat.eqb i build_data_arg then w_data w else w_en w) [0; 1; 2]%nat.
+Definition sim_port (args : list Z) : wport :=
+  (nth mem_update_addr_arg args 0, nth mem_update_data_arg args 0, nth mem_update_enable_arg args 0).
+Definition c_port (args : list Z) : wport :=
+  (nth c_write_addr_arg args 0, nth c_write_data_arg args 0, nth c_write_enable_arg args 0).
 
 (* one Simulation.step seen from one memory: all 'm' nets are executed against
    memvalue, then _mem_update runs for every '@' net *)
@@ -259,7 +270,7 @@ Definition fmap_set {V} (m : Z -> option V) (k : Z) (v : V) : Z -> option V :=
 (* -- the C instance: key % size, values are arrays of 64-bit limbs -- *)
 Definition c_hash (k : Z) : Z := k.                       (* hash_code: key % h->size *)
 Definition c_key (a : Z) : Z := a mod 2 ^ 64.             (* `addr[0]`: low limb only  *)
-Definition c_size : nat := 256.                           (* create_hash_map(256, limbs) *)
+Definition c_size : nat := c_size_src.                    (* create_hash_map(256, limbs): translated *)
 
 Fixpoint split_limbs (n : nat) (v : Z) : list Z :=        (* _makeini / wire limbs *)
   match n with
@@ -309,23 +320,23 @@ Definition py_list_get (l : list Z) (i : Z) : option Z :=
   else nth_error l (Z.to_nat (if i <? 0 then i + n else i)).
 
 Definition rom_read (aw bw : Z) (pad : bool) (data : romdata) (a : Z) : rom_result :=
-  if (a <? 0) || (a >? 2 ^ aw - 1) then RomErr ErrAddr
+  if rom_addr_guard aw a then RomErr ErrAddr          (* translated guard *)
   else
     let value : rom_result :=
       match data with
       | RomFun f => match f a with Some v => RomOk v | None => RomErr ErrFun end
       | RomDict d => match assoc d a with
                      | Some v => RomOk v
-                     | None => if pad then RomOk 0 else RomErr ErrKey
+                     | None => if pad then RomOk rom_pad_key else RomErr ErrKey
                      end
       | RomList l => match py_list_get l a with
                      | Some v => RomOk v
-                     | None => if pad then RomOk 0 else RomErr ErrIndex
+                     | None => if pad then RomOk rom_pad_index else RomErr ErrIndex
                      end
       end in
     match value with
     | RomErr e => RomErr e
-    | RomOk v => if (v <? 0) || (v >=? 2 ^ bw) then RomErr ErrValue else RomOk v
+    | RomOk v => if rom_value_guard bw v then RomErr ErrValue else RomOk v   (* translated guard *)
     end.
 
 (* the mathematical content of a ROM: data[a] *)
